@@ -2133,3 +2133,78 @@ pub proof fn lemma_table_children(b: BDD, p: ParsedFormula, base: Cells)
     lemma_table_child(b, p, base, lo(b), TruthTableEntry::False);
     lemma_table_child(b, p, base, hi(b), TruthTableEntry::True);
 }
+
+// ---- one row per root-to-leaf path (C10 mechanism; C07: `-m -t` prints exactly one row)
+
+/// number of paths of b that end in a leaf the filter admits
+pub open spec fn leaf_rows(b: BDD, filter: TruthTableEntry) -> nat
+    decreases b
+{
+    match b {
+        BDD::Choice(t, v, f) => leaf_rows(*f, filter) + leaf_rows(*t, filter),
+        _ => if filter_ok(filter, b is True) { 1 } else { 0 },
+    }
+}
+
+/// a cube (what `model` returns for a satisfiable diagram) has exactly one path to the true leaf
+pub proof fn lemma_cube_one_row(b: BDD)
+    requires cube(b)
+    ensures leaf_rows(b, TruthTableEntry::True) == 1
+    decreases b
+{
+    if b is Choice {
+        let t = *b->0; let f = *b->2;
+        assert(leaf_rows(BDD::False, TruthTableEntry::True) == 0);
+        assert(leaf_rows(b, TruthTableEntry::True) == leaf_rows(f, TruthTableEntry::True) + leaf_rows(t, TruthTableEntry::True));
+        if f == BDD::False && cube(t) { lemma_cube_one_row(t); } else { assert(t == BDD::False && cube(f)); lemma_cube_one_row(f); }
+    }
+}
+
+/// number of emitted rows whose result column is True
+pub open spec fn sat_rows(out: Rows) -> nat
+    decreases out.len()
+{
+    if out.len() == 0 { 0 } else { sat_rows(out.drop_last()) + (if out.last().1 is True { 1nat } else { 0nat }) }
+}
+
+pub proof fn lemma_sat_rows_concat(a: Rows, b: Rows)
+    ensures sat_rows(a + b) == sat_rows(a) + sat_rows(b)
+    decreases b.len()
+{
+    if b.len() == 0 {
+        assert(a + b =~= a);
+    } else {
+        assert((a + b).drop_last() =~= a + b.drop_last());
+        assert((a + b).last() == b.last());
+        lemma_sat_rows_concat(a, b.drop_last());
+    }
+}
+
+pub proof fn lemma_sat_rows_one(r: (Cells, BDD))
+    ensures sat_rows(seq![r]) == (if r.1 is True { 1nat } else { 0nat }), sat_rows(Seq::<(Cells, BDD)>::empty()) == 0
+{
+    let s1 = seq![r];
+    assert(s1.len() == 1);
+    assert(s1.drop_last() =~= Seq::<(Cells, BDD)>::empty());
+    assert(s1.last() == r);
+    assert(sat_rows(Seq::<(Cells, BDD)>::empty()) == 0);
+    assert(sat_rows(s1) == sat_rows(s1.drop_last()) + (if s1.last().1 is True { 1nat } else { 0nat }));
+}
+
+/// the satisfying rows a filter lets through: all True-leaf paths unless the filter is False
+pub open spec fn sat_paths(b: BDD, filter: TruthTableEntry) -> nat {
+    if filter is False { 0 } else { leaf_rows(b, TruthTableEntry::True) }
+}
+
+/// C07, CLI sentence, over the contracts of `model` and of the table printer: printing the model of a satisfiable
+/// diagram (any filter but False) emits exactly one satisfying row, printing the model of an unsatisfiable one emits none
+pub proof fn lemma_model_prints_one_row(m: BDD, out: Rows, filter: TruthTableEntry)
+    requires
+        m == BDD::False || cube(m),
+        !(filter is False),
+        sat_rows(out) == sat_paths(m, filter),
+    ensures
+        sat_rows(out) == (if m == BDD::False { 0nat } else { 1nat }),
+{
+    if m != BDD::False { lemma_cube_one_row(m); }
+}
